@@ -68,6 +68,7 @@ def run(prog, chk):
     from props import C19, C08
     C19.text_not_altered(prog, chk)  # "the same text": character content is carried verbatim
     C08.author_wins(prog, chk)  # the root's own attributes (id, width, viewBox ...) are kept
+    C08.clip_failure_modes(prog, chk)  # "never makes the transform fail": a clip-path reference fails only for the reviewed reasons
     C08.points_parity(prog, chk)  # "never makes the transform fail": a points list is read with every separator SVG allows
     from props import C18, C10
     C18.template_source(prog, chk)  # "never makes the transform fail": an id'd element is registered before it is needed by <use> / clip-path
